@@ -13,7 +13,7 @@
 
 From Coq Require Import String List NArith Bool Arith.
 From Nexus Require Import Conc.SkelTypes Conc.Machine Conc.MachineFacts
-  Conc.Ranked Conc.RankedProofs Conc.Stall Conc.StallProofs Conc.YieldRetry
+  Conc.Ranked Conc.RankedProofs Conc.Stall Conc.StallProofs Conc.YieldRetry Conc.CancelModel
   Conc.Shutdown Conc.Skeleton Conc.SkeletonProofs Conc.SkelObligationsC07 gen.GenSkeleton.
 Import ListNotations.
 
@@ -135,6 +135,55 @@ Theorem yield_retry_keeps_invocation :
   Skeleton.yield_retry_keeps_invocation gen_yield_retry_keeps_invocation = true.
 Proof. exact yield_retry_keeps_invocation_holds. Qed.
 Print Assumptions yield_retry_keeps_invocation.
+
+(** The call's own timeout cannot take an answered call away: once the callee
+    has answered finally the timer is stopped, also while the RESULT is being
+    retried — whenever it would have expired. *)
+Theorem call_timeout_irrelevant_once_answered :
+  forall (room : N -> bool) (tmo : option N) (d D : N),
+    run_t true room tmo d D = snd (YieldRetry.run true room d D).
+Proof. exact YieldRetry.call_timeout_irrelevant_once_answered. Qed.
+Print Assumptions call_timeout_irrelevant_once_answered.
+
+(** If only the clean-up (which the retry skips) stops the timer the statement
+    is FALSE: a timeout expiring no later than the first retry ends the call. *)
+Theorem retried_yield_refuted_without_timer_stop :
+  forall (room : N -> bool) (d D x : N),
+    room 0%N = false -> (x <= d)%N -> run_t false room (Some x) d D = (d, TimedOut).
+Proof. exact YieldRetry.retried_yield_times_out_without_stop. Qed.
+Print Assumptions retried_yield_refuted_without_timer_stop.
+
+Theorem yield_stops_timer_before_retry :
+  Skeleton.yield_stops_timer_before_retry gen_yield_stops_timer_before_retry = true.
+Proof. exact yield_stops_timer_before_retry_holds. Qed.
+Print Assumptions yield_stops_timer_before_retry.
+
+(** A CANCEL towards a callee that does not read ([Conc/CancelModel.v]): the
+    caller has its answer or the callee has an INTERRUPT to answer; a full
+    queue degrades every mode to skip. *)
+Theorem cancel_never_strands_caller :
+  forall (m : cmode) (callee_cancels room : bool),
+    let r := sync_cancel true m callee_cancels room in
+    (caller_answered r = true \/ interrupt_queued r = true) /\
+    caller_answered r = call_removed r.
+Proof. exact CancelModel.cancel_never_strands_caller. Qed.
+Print Assumptions cancel_never_strands_caller.
+
+Theorem full_queue_degrades_to_skip :
+  forall (m : cmode) (callee_cancels : bool),
+    sync_cancel true m callee_cancels false = mkCR false true true.
+Proof. exact CancelModel.full_queue_degrades_to_skip. Qed.
+Print Assumptions full_queue_degrades_to_skip.
+
+Theorem cancel_strands_caller_refuted :
+  sync_cancel false Kill true false = mkCR false false false.
+Proof. exact CancelModel.cancel_strands_caller_refuted. Qed.
+Print Assumptions cancel_strands_caller_refuted.
+
+Theorem cancel_waits_only_if_interrupt_sent :
+  Skeleton.cancel_waits_only_if_interrupt_sent gen_cancel_waits_only_if_interrupt_sent = true.
+Proof. exact cancel_waits_only_if_interrupt_sent_holds. Qed.
+Print Assumptions cancel_waits_only_if_interrupt_sent.
 
 (** ** (b) Ranked progress, proved once, for any number of processes *)
 
